@@ -80,6 +80,14 @@ fn main() {
             });
             let out = exec::run_plan(&plan, &exec::RunOpts { keep_trace: true, ..Default::default() });
             println!("replay seed={} profile={} events={} sig={:016x}", plan.seed, plan.profile, out.events, out.sig);
+            if std::env::var("SIM_TRACE").is_ok() {
+                for l in out.trace_sample.iter() {
+                    println!("  {}", l);
+                }
+                for h in out.history.iter().take(80) {
+                    println!("  c{} #{} {:?} -> {:?}", h.client, h.uid, h.kind, h.result);
+                }
+            }
             for v in out.violations.iter() {
                 println!("  violation property={} rule={} cause={} detail={}", v.property, v.rule, v.cause, v.detail);
             }
